@@ -31,6 +31,8 @@ D = decimal.Decimal
 
 
 def gen_cases(tier, seed):
+    # the processors of this property once more with assertions disabled (python -O) against a normal interpreter
+    yield {'family': 'optimized_differential', 'idx': 9 * 10 ** 6, 'seed': seed, 'spill': False, 'big': False, 'proc': 'optimized_differential', 'names': ['a'], 'selector': None}
     n = {'quick': 260, 'thorough': 6000}[tier]
     for fam in FAMILIES:
         for i in range(n):
@@ -106,6 +108,9 @@ def plus7(row):
 
 
 def run_case(case):
+    if case['family'] == 'optimized_differential':
+        from vlib import optlab
+        return optlab.as_case_result(['select_fields', 'delete_fields', 'rename_fields', 'add_field', 'add_computed_field', 'find_replace', 'set_type'], {'schemas_compared': 0, 'rows_compared': 0})
     fam = case['family']
     rng = boot.rng(case['seed'], 'C15', fam, case['idx'])
     d = lab.df()
